@@ -101,7 +101,9 @@ func propC03(r *kernel.Run) {
 			sp := ReqSpec{Cert: id, EncPub: id.EncPub, Nonce: id.Nonce, NotBefore: nb, NotAfter: na}
 			if tp.Draw(8) == 0 {
 				fieldsOK = false
-				switch tp.Draw(3) {
+				switch tp.Draw(4) {
+				case 3:
+					fieldCase = "key-of-other-algorithm"
 				case 0:
 					sp.Nonce = nil
 					fieldCase = "empty-nonce"
@@ -114,6 +116,13 @@ func propC03(r *kernel.Run) {
 			}
 			var info *types.FetchNodeCredentialsInfo
 			req, info = BuildFetch(sp)
+			if fieldCase == "key-of-other-algorithm" {
+				// labelled Ed25519, but the PKIX bytes are a well-formed key of another algorithm; the signature cannot verify
+				info.CertificatePublicKeyPkix = foreignAlgorithmPkix(tp.Draw(2))
+				b, _ := proto.Marshal(info)
+				req.Bundle = b
+				req.BundleSignature = tp.Bytes(64)
+			}
 			if fieldCase == "bad-key-type" {
 				if tp.Draw(2) == 0 {
 					info.CertificatePublicKeyType = types.KEYTYPE_X25519
